@@ -3,6 +3,7 @@
 (* secp256k1 (seeded random keys, networks and messages beyond the replay     *)
 (* grid) are checked against MsgText.tla.  One trace = one signer session:    *)
 (*   sign    the signature text pycoin produced, its digest, the key          *)
+(*   recover what pair_for_message_hash returned for that signature         *)
 (*   verify  a verification call (verifier's network, message, key or         *)
 (*           address, form) and the boolean pycoin answered                   *)
 (*   armour  the armoured text pycoin produced                                *)
@@ -51,6 +52,10 @@ TVerify == /\ l <= Len(Ev) /\ E.op = "verify" /\ cur # <<>>
                         /\ E.pub = Tr.pub
                         /\ (E.who = "addr" => E.comp = Tr.comp) )
            /\ l' = l + 1 /\ UNCHANGED <<tid, cur>>
+\* pycoin's pair_for_message_hash on its own signature: exactly the signer's key and form
+TRecover == /\ l <= Len(Ev) /\ E.op = "recover" /\ cur # <<>>
+            /\ E.pub = Tr.pub /\ E.comp = Tr.comp
+            /\ l' = l + 1 /\ UNCHANGED <<tid, cur>>
 TArmour == /\ l <= Len(Ev) /\ E.op = "armour" /\ cur # <<>>
            /\ E.text = Format(UpperAscii(Tr.name), Tr.msg, E.addr, E.sig)
            /\ Chars(E.sig) = B64Encode(cur)
@@ -68,7 +73,7 @@ TVSig == /\ l <= Len(Ev) /\ E.op = "vsig"
                                 r |-> SubSeq(dec.v, 2, 33), s |-> SubSeq(dec.v, 34, 65), recid |-> HeaderRecid(dec.v[1]),
                                 comp |-> HeaderComp(dec.v[1])]))
          /\ l' = l + 1 /\ UNCHANGED <<tid, cur>>
-TNext == TSign \/ TVerify \/ TArmour \/ TParse \/ TVSig
+TNext == TSign \/ TVerify \/ TRecover \/ TArmour \/ TParse \/ TVSig
 TSpec == TInit /\ [][TNext]_tvars
 
 Reached == IF l = Len(Ev) + 1 THEN TLCSet(1, TLCGet(1) \cup {tid}) ELSE TRUE
